@@ -85,6 +85,11 @@ def tagged(m, kind, kmax):
         bnds['omixed'] = OrientedBoundary(fac, ori)
         if len(intf) >= 2:
             bnds['omixed2'] = OrientedBoundary(np.array([intf[1], bf[0], intf[0]], dtype=np.int32), np.array([1, 0, 1]))
+        # an interior facet tagged from BOTH sides (e.g. the union of the facets around two adjacent subdomains)
+        bnds['oboth'] = OrientedBoundary(np.array([intf[0], bf[0], intf[0]], dtype=np.int32), np.array([1, 0, 0], dtype=np.int32))
+    if len(bf) >= 2:
+        # the same set named with a repeated index (e.g. the concatenation of two overlapping selections)
+        bnds['brep'] = np.array([bf[0], bf[-1], bf[0]], dtype=np.int32)
     return m.with_subdomains(subs).with_boundaries(bnds)
 
 
@@ -94,11 +99,12 @@ def digest(m):
 
 
 def owners(m, tag):
-    """facet -> owning cell (orientation as the property states it)."""
+    """list of (facet, owning cell) pairs (orientation as the property states it); a facet tagged from both sides
+    appears with both owners."""
     fac = np.asarray(tag).astype(int)
     ori = getattr(tag, 'ori', None)
     ori = np.zeros(len(fac), dtype=int) if ori is None else np.asarray(ori).astype(int)
-    return {int(f): int(m.f2t[o, f]) for f, o in zip(fac, ori)}
+    return [(int(f), int(m.f2t[o, f])) for f, o in zip(fac, ori)]
 
 
 def roundtrip(m, fmt, tmp, pdata, cdata):
@@ -192,14 +198,16 @@ def work(item, tier, seed):
             if f0 != f1:
                 bad('boundaries', f"boundary '{k}' facets {sorted(f0)} came back as {sorted(f1)}")
                 break
-            if len(np.asarray(b1[k])) != len(f1):
-                bad('boundary-duplicates', f"boundary '{k}' came back with repeated facets")
-                break
             o0, o1 = owners(m, b0[k]), owners(M, b1[k])
-            if o0 != o1:
-                d = next(f for f in o0 if o0[f] != o1[f])
-                bad('orientation', f"oriented boundary '{k}': facet {d} (cells {m.f2t[:, d].tolist()}) was owned by cell {o0[d]} "
-                    f"and comes back owned by cell {o1[d]}")
+            import collections as _c
+            c0, c1 = _c.Counter(o0), _c.Counter(o1)
+            if any(c1[q] > max(c0[q], 1) for q in c1):
+                bad('boundary-duplicates', f"boundary '{k}' came back with a (facet, owner) pair repeated more often than it was given")
+                break
+            if set(o0) != set(o1):
+                d = sorted(set(o0) ^ set(o1))[0]
+                bad('orientation', f"oriented boundary '{k}': (facet, owning cell) pairs {sorted(set(o0))} come back as "
+                    f"{sorted(set(o1))} (first difference: facet {d[0]}, cells {m.f2t[:, d[0]].tolist()})")
                 break
     if o is not None:
         try:
